@@ -38,7 +38,32 @@ var sweepAdditions = map[string]string{
 	"C17": "Additions after the mutation sweep: Delete redirects a predecessor only where it points at the found element, to that element's successor (SKIP.UNLINK); LOOP.PROGRESS.",
 }
 
+// Additions for the rules added after the fifth round (feature- and optimisation-shaped changes).
+var round5Additions = map[string]string{
+	"C01": "Round-5 additions: not-found only after every source was consulted and answers derived from the lookups only - no cache in between (READ.SOURCES); branches of the table walk other than filter / index found / block found / same key are UNDECIDED and the searched block is always the freshly fetched one (LOOKUP.SKIP); the table and its filter are built from exactly what version discarding returned (CMP.PIPE); keys are rebuilt as prevKey[:lcp]+suffix unconditionally (CODEC.KEYREBUILD).",
+	"C02": "Round-5 additions: background work is confined to the goroutines Close waits for (LIVE.NOSPAWN); recovery's file filter (RECOVER.FILTER); package-level registries are released under the key they were taken with (REG.PAIR).",
+	"C03": "Round-5 additions: no decision on tombstones in compactions (CMP.TOMB); a single source table is the oldest of its level and inputs are never deleted from Back() (CMP.VICTIM); deferred removals are checked at every later exit including panics, and unjustified removals in helpers become obligations of their call sites (DUR.REMOVE); the loop over wal files is left only at its header (RECOVER.REPLAY).",
+	"C04": "Round-5 additions: CMP.TOMB, CMP.VICTIM as under C03.",
+	"C05": "Round-5 additions: a flush only counts when its errors are checked on the way (FLUSH.MUST, error-aware); READ.PUBLISH; READ.SOURCES.",
+	"C06": "Round-5 additions: the write buffer and its fingerprints only grow and finished-flags only rise (TRACE.BUFMONO); READ.SOURCES.",
+	"C07": "Round-5 additions: hasConflict becomes true only behind a fingerprint hit and the committed list is only appended to outside the clean-up (CONF.ONLYIF); doneRead in Commit itself only after the timestamp was allocated (SNAP.DONE); SNAP.BEGIN; TRACE.BUFMONO.",
+	"C08": "Round-5 additions: TRACE.BUFMONO; every nil return of Set/Delete/SetEntry follows an update of the write buffer, so no fast path bypasses the misuse checks (TRACE.ACK); READ.SOURCES; sync.Map mutators count as shared writes (TRACE.CONFINE).",
+	"C09": "Round-5 additions: CMP.PIPE, LOOKUP.SKIP, BLOOM.ALL.",
+	"C10": "Round-5 additions: LOOKUP.SKIP, READ.SOURCES, CODEC.KEYREBUILD, RACE.READPATH, RACE.FILTER.",
+	"C11": "Round-5 additions: CODEC.KEYREBUILD; nothing touches a buffer after sync.Pool.Put, deferred calls included (POOL.PUTLAST).",
+	"C12": "Round-5 additions: POOL.PUTLAST; lock order and wait-for rules of C15 (every operation returns).",
+	"C13": "Round-5 additions: after every store of the watermark the waiter table is scanned before the next mark is taken, unless nobody waits (WM.RELEASE).",
+	"C14": "Round-5 additions: CMP.TOMB, CMP.VICTIM, CMP.RMORDER; deferred removals on panic exits (DUR.REMOVE); RECOVER.REPLAY file loop.",
+	"C15": "Round-5 additions: the mark consumer closes its channel on every way out (LIVE.CLOSECHAN); no rendezvous-order cycle between channel operations, channels without a positive constant capacity counting as unbuffered (LIVE.RENDEZVOUS).",
+	"C17": "Round-5 additions: every increment of a drawn tower height is dominated by level < maxLevel (SKIP.RANDLEVEL).",
+}
+
 func init() {
+	for _, pr := range properties {
+		if add, ok := round5Additions[pr.ID]; ok {
+			defer func(pr *Property, add string) { pr.Explanation += " " + add }(pr, add)
+		}
+	}
 	for _, pr := range properties {
 		if add, ok := explanationAdditions[pr.ID]; ok {
 			pr.Explanation += " " + add
